@@ -27,6 +27,27 @@ def main():
                 results[name] = {'property': prop, 'status': 'patch-does-not-apply', 'detail': r.stderr[-500:]}
                 print(name, 'PATCH DOES NOT APPLY')
                 continue
+            if os.environ.get('SEEDED_VERIFY') == '1':
+                # confirm the change ourselves: demo passes pristine, fails patched, pinned tests still green
+                pristine = tempfile.mkdtemp(prefix='pv-pristine-')
+                try:
+                    subprocess.run('git -C /repo archive HEAD | tar -x -C %s' % pristine, shell=True, check=True)
+                    def demo(root):
+                        return subprocess.run(['/venv/bin/python', os.path.join(d, 'demo.py')], cwd=root,
+                                              env=dict(os.environ, PYTHONPATH=root, PYTHONHASHSEED='0'),
+                                              capture_output=True, text=True, timeout=600).returncode
+                    d0, d1 = demo(pristine), demo(tmp)
+                finally:
+                    shutil.rmtree(pristine, ignore_errors=True)
+                t = subprocess.run(['/venv/bin/python', '-m', 'pytest', '-q', '-p', 'no:cacheprovider', '--timeout=900',
+                                    '--continue-on-collection-errors'], cwd=tmp, env=dict(os.environ, PYTHONPATH=tmp),
+                                   capture_output=True, text=True)
+                tail = t.stdout.strip().splitlines()[-1] if t.stdout.strip() else ''
+                meta['confirmed'] = {'demo_pristine_exit': d0, 'demo_patched_exit': d1, 'pytest_patched': tail,
+                                     'ok': d0 == 0 and d1 != 0 and '111 passed' in tail}
+                json.dump(meta, open(os.path.join(d, 'meta.json'), 'w'), indent=1)
+                print(name, 'confirmed:', meta['confirmed'])
+                subprocess.run(['git', 'clean', '-fdxq'], cwd=tmp) if os.path.isdir(os.path.join(tmp, '.git')) else None
             out = {}
             for p in props:
                 t0 = time.time()
